@@ -314,6 +314,8 @@ class Interp:
             return bool(v)
         if isinstance(v, (PyList, PySet)):
             return len(v.items) > 0
+        if hasattr(v, "vtruth"):
+            return v.vtruth(self)
         if isinstance(v, SymDict):
             raise Outside("truthiness of a lazily decided dict")
         if isinstance(v, PyDict):
@@ -439,7 +441,23 @@ class Interp:
             return False if type(a) is not type(b) else (_ for _ in ()).throw(Outside("`is` on symbolic scalars"))
         return a is b
 
+    def _text_int_cmp(self, op, a, b):
+        """int(<canonical text>) compared with a small constant: decided on the text (regular language)."""
+        from .strings import SStrInt, re_int_cmp
+        flip = {ast.Lt: ast.Gt, ast.Gt: ast.Lt, ast.LtE: ast.GtE, ast.GtE: ast.LtE, ast.Eq: ast.Eq, ast.NotEq: ast.NotEq}
+        if isinstance(b, SStrInt) and isinstance(a, int) and not isinstance(a, bool):
+            a, b, op = b, a, flip[type(op)]()
+        if isinstance(a, SStrInt) and isinstance(b, int) and not isinstance(b, bool):
+            rx = re_int_cmp(op, b)
+            if rx is not None:
+                return SBool(z3.InRe(a.src, rx))
+        return None
+
     def compare(self, op, a, b):
+        if isinstance(op, (ast.Eq, ast.NotEq)):
+            r = self._text_int_cmp(op, a, b)
+            if r is not None:
+                return r
         if isinstance(op, ast.Eq):
             return self.py_eq(a, b)
         if isinstance(op, ast.NotEq):
@@ -456,6 +474,9 @@ class Interp:
         if isinstance(op, ast.NotIn):
             return self.neg(self.contains(b, a))
         # orderings
+        r = self._text_int_cmp(op, a, b)
+        if r is not None:
+            return r
         if isinstance(a, (EnumMember, SEnum)) and a.cls.is_int_enum():
             a = self.enum_val(a)
         if isinstance(b, (EnumMember, SEnum)) and b.cls.is_int_enum():
@@ -608,6 +629,8 @@ class Interp:
             d.d[tok] = [key, value]
 
     def contains(self, cont, item):
+        if hasattr(cont, "vcontains"):
+            return cont.vcontains(self, item)
         if isinstance(cont, PyDict):
             return self.dict_find(cont, item) is not None
         if isinstance(cont, (PySet, PyList, tuple)):
@@ -630,6 +653,11 @@ class Interp:
             if isinstance(item, (str, SStr, bytes)):
                 if not isinstance(cont, Sym) and not isinstance(item, Sym):
                     return item in cont
+                if self.cfg.int_model == "lexical" and isinstance(item, str) and len(item) == 1:
+                    # one constant character: stay inside the regular-language fragment (the solvers decide
+                    # membership constraints together, str.contains mixed with them times out)
+                    anyc = z3.Star(z3.Range(chr(0), chr(0x2FFFF)))
+                    return SBool(z3.InRe(_t(cont), z3.Concat(anyc, z3.Re(item), anyc)))
                 return SBool(z3.Contains(_t(cont), _t(item)))
             self.raise_("TypeError", "in <string> requires string")
         if isinstance(cont, Obj):
@@ -687,6 +715,14 @@ class Interp:
             return self.ctx.fresh_str("repr")
         if isinstance(v, bytes):
             return repr(v)
+        if isinstance(v, ExcObj):
+            # str(exception): its single text argument, else some non-empty text (A-EXCSTR: the messages of the
+            # built-in conversion errors are never empty)
+            if len(v.args) == 1 and isinstance(v.args[0], str) and v.args[0]:
+                return v.args[0]
+            s = self.ctx.fresh_str("excstr")
+            self.ctx.assume(SBool(z3.Length(s.t) > 0))
+            return s
         return self.ctx.fresh_str("str")
 
     def to_int(self, v):
@@ -720,6 +756,9 @@ class Interp:
         raise Outside(f"int() of {type(v).__name__}")
 
     def int_of_sstr(self, v):
+        if self.cfg.int_model == "lexical":
+            from .strings import int_lexical
+            return int_lexical(self, v)
         if self.cfg.int_model == "precise":
             from .strings import py_int_accept_re, canon_int_value
             ok = SBool(z3.InRe(v.t, py_int_accept_re()))
